@@ -7,7 +7,7 @@ from ..describe import describe
 from ..engines.schemas import range_parts, sum_parts
 from .. import lemmas
 from .common import configs_for
-from .util import Rule, guarded, site_of_block
+from .util import Rule, guarded, site_of_block, check_visits_all
 from . import models
 
 TITLE = "fill_inplace only turns spaces into newlines and agrees with fill"
@@ -104,6 +104,7 @@ def _check(prog, rep):
         raise AnchorMissing("fill_inplace: expected one vector of recorded indices")
     idxv = next(iter(idxroots))
     words = inner.item
+    check_visits_all(r1, body, inner, "fill_inplace's loop over the arranged lines of a paragraph")
     for tr in loop_system(prog, body, inner, [lo_pk], [idxv]):
         if tr.kind != "back":
             continue
@@ -129,6 +130,7 @@ def _check(prog, rep):
         r1.check(okp, "record", "the recorded index is line_offset' - 1 (the last space of the line)", "push(line_offset + S - 1)",
                  "the recorded index is %s; expected line_offset + S - 1" % [(n, poly(a).show(D)) for n, a in evs], site=site)
     ffb = [b for b, t, c in body.calls() if c.name == "crate::wrap_algorithms::wrap_first_fit"]
+    check_visits_all(r1, body, outer, "fill_inplace's loop over the paragraphs")
     for tr in loop_system(prog, body, outer, [off_pk], []):
         if tr.kind != "back":
             continue
